@@ -118,7 +118,16 @@ Verdict(r) ==
   LET ref == RefShape(r.input, TokenizeWit(r.input, r.wit).toks)
       h5s == ObsShape(r.h5, {"st", "et", "cm", "dt", "tx"})
       v == Fold(r, ref, h5s, 1, "ok")
-  IN IF v = "ok" /\ ~StrictSame(r) THEN "C03: a strict run that succeeds differs from the non-strict run"
+      \* "ambiguity is refused", decided against lol-html's designed guard (L1, TreeSim: a text-mode-switching start tag
+      \* inside select, inside template in select, in or after frameset).  The witnessed tree builder cannot decide this
+      \* half: html5ever 0.39 follows the 2025 standard, which has no "in select" insertion mode any more, so with it
+      \* nothing inside select is ambiguous.
+      simErr == Tokenize(r.input, "sim", TRUE).err # ""
+      GuardBad(o) == o.strict /\ ((o.res = "ok" /\ simErr) \/ (o.res = "err:ambiguity" /\ ~simErr))
+  IN IF v = "ok" /\ \E i \in 1..Len(r.obs) : GuardBad(r.obs[i])
+          THEN (IF simErr THEN "C03: strict mode did not refuse a text-mode start tag inside select / template in select / frameset (designed guard, TreeSim)"
+                ELSE "C03: strict mode refused although the designed guard (TreeSim) sees no ambiguity")
+     ELSE IF v = "ok" /\ ~StrictSame(r) THEN "C03: a strict run that succeeds differs from the non-strict run"
      ELSE IF v = "ok" THEN "ok"
      ELSE IF v = "inconclusive" THEN "inconclusive"
      ELSE v \o (IF SigS3(ref) THEN " [signature:S3]" ELSE "")
